@@ -77,7 +77,13 @@ impl Check for C02 {
         let holes = if with_holes { 1 + rng.below(4) } else { 0 };
         let mut cfg = GenCfg::swarm(rng, holes);
         cfg.size = 5 + rng.below(40);
-        let variant = if with_holes { HoleVariant::Order } else { HoleVariant::Sync };
+        let variant = if !with_holes {
+            HoleVariant::Sync
+        } else if rng.chance(0.5) {
+            HoleVariant::Order
+        } else {
+            HoleVariant::OrderDirect
+        };
         let mut case = ProgCase::generate(rng, cfg, variant, "v");
         if rng.chance(0.3) {
             case.module_path = Some("/p/main.ts".into());
